@@ -35,6 +35,10 @@ type decNormaliser struct {
 }
 
 func newDecNormaliser(fset *token.FileSet, repo string) *decNormaliser {
+	return newDecNormaliserAliased(fset, repo, nil)
+}
+
+func newDecNormaliserAliased(fset *token.FileSet, repo string, alias map[string]string) *decNormaliser {
 	known := map[string]bool{}
 	for _, n := range strings.Fields(decKnownText) {
 		known[n] = true
@@ -49,6 +53,7 @@ func newDecNormaliser(fset *token.FileSet, repo string) *decNormaliser {
 		if err != nil {
 			continue
 		}
+		decApplyAliases(af, alias)
 		for _, d := range af.Decls {
 			if fd, ok := d.(*ast.FuncDecl); ok && fd.Body != nil {
 				nz.all[fd.Name.Name] = append(nz.all[fd.Name.Name], fd)
